@@ -53,7 +53,7 @@ class ExceptionsEmitter:
         generated_code, alias_names, status_codes = self.visitor.visit(spec, context)
 
         # Update registry if we have a client package name (shared core scenario)
-        if client_package_name and self._is_shared_core(output_dir):
+        if client_package_name and self._is_shared_core(output_dir, client_package_name):
             all_codes = self._update_registry(registry_path, client_package_name, status_codes)
             # Regenerate with ALL codes from registry
             generated_code, alias_names = self._generate_for_codes(all_codes, context)
@@ -74,11 +74,12 @@ class ExceptionsEmitter:
 
         return [file_path], alias_names
 
-    def _is_shared_core(self, core_dir: str) -> bool:
+    def _is_shared_core(self, core_dir: str, client_package_name: str | None = None) -> bool:
         """Check if this core package is shared between multiple clients.
 
         Args:
             core_dir: Path to the core package directory
+            client_package_name: Dotted name of the client package being generated, if known
 
         Returns:
             True if the core package is outside the immediate client package
@@ -88,6 +89,11 @@ class ExceptionsEmitter:
         if self.overall_project_root:
             core_path = Path(core_dir).resolve()
             project_root = Path(self.overall_project_root).resolve()
+            if client_package_name:
+                # The core is shared exactly when it does not live inside this client's own package directory,
+                # however deep below the project root it is (a path-depth heuristic misses a.b.core).
+                client_dir = project_root.joinpath(*client_package_name.split("."))
+                return core_path != client_dir and client_dir not in core_path.parents
             # Check if there are other client directories at the same level
             parent_dir = core_path.parent
             return parent_dir == project_root or parent_dir.parent == project_root
